@@ -4,7 +4,10 @@ Generators: Hermitian MPOs (built-in models with their charges, random Hermitian
 quantum numbers, assembled by hand as X + X^dagger), block-sparse states with a prescribed bond profile and
 charge sector that are generically non-zero, complete-manifold bond profiles per charge sector.
 Oracles: dense linear algebra only (oracle.mpo_dense / oracle.mps_dense, numpy, scipy)."""
-import itertools
+import os
+for _v in ('OMP_NUM_THREADS', 'OPENBLAS_NUM_THREADS', 'MKL_NUM_THREADS'):
+    # tiny tensors: BLAS threads only oversubscribe the 14-process pool (no effect if numpy is already loaded)
+    os.environ.setdefault(_v, '1')
 import numpy as np
 import pytenet as ptn
 from . import oracle
@@ -18,6 +21,8 @@ MODELS = {
     'fermi_hubbard':  ((4,), True),
     'rand0':          ((2, 3), False),
     'randq':          ((2, 3), True),
+    'rand0s':         ((2, 3), False),
+    'randqs':         ((2, 3), True),
 }
 
 RANDQ_QD = {2: ([0, 1], [1, -1], [0, 2]), 3: ([0, 1, 2], [-1, 0, 1], [0, 0, 1], [1, 0, 0])}
@@ -71,8 +76,11 @@ def build_hamiltonian(name, L, d, rng):
         return ptn.bose_hubbard_mpo(d, L, _nz(rng), _nz(rng), _nz(rng))
     if name == 'fermi_hubbard':
         return ptn.fermi_hubbard_mpo(L, _nz(rng), _nz(rng), _nz(rng))
-    if name in ('rand0', 'randq'):
-        if name == 'rand0':
+    if name in ('rand0', 'randq', 'rand0s', 'randqs'):
+        # random Hermitian MPO X + X^dagger; spectral norm rescaled to the range of the built-in models
+        # ('...s' = stiff variant: ||H|| of a few hundred, see the note on Lanczos orthogonality in r_C08)
+        stiff = name.endswith('s')
+        if name.startswith('rand0'):
             qd = [0] * d
         else:
             opts = RANDQ_QD[d]
@@ -85,13 +93,13 @@ def build_hamiltonian(name, L, d, rng):
             q = [0] + [int(rng.choice(diffs)) for _ in range(D - 1)]
             qD.append(q)
         qD.append([0])
-        if L == 0:
-            qD = [[0]]
         X = ptn.MPO(qd, qD, fill='random', rng=rng)
-        s = float(rng.choice([0.5, 1.0, 3.0]))
-        for i in range(L):
-            X.A[i] = X.A[i] * (s ** (1.0 / L)) * np.sqrt(len(qd) * X.A[i].shape[2] * X.A[i].shape[3])
-        return hermitian_sum(X)
+        H = hermitian_sum(X)
+        target = float(rng.choice([150.0, 400.0])) if stiff else float(rng.choice([1.0, 3.0, 8.0]))
+        nH = float(np.linalg.norm(oracle.mpo_dense(H.A), 2))
+        if nH > 0:
+            H.A[0] = H.A[0] * (target / nH)
+        return H
     raise ValueError(name)
 
 
@@ -233,3 +241,24 @@ def energy(Hd, v):
 
 def bond_dims(psi):
     return [len(q) for q in psi.qD]
+
+
+def choose_state(rng, qd, L, bstyle, Dmax, need_uniform=False):
+    """bond charges for a state of the given style; returns dict(qD, qL, complete, uniform) or None if the
+    requested style does not exist (no uniform complete sector of dimension >= 2)"""
+    d = len(qd)
+    secs = sectors(qd, L)
+    if bstyle == 'complete':
+        cands = []
+        for q in secs:
+            qD, uni = complete_charges(qd, L, q)
+            if need_uniform and not (uni and int(np.count_nonzero(sector_mask(qd, L, q))) >= 2):
+                continue
+            cands.append((q, qD, uni))
+        if not cands:
+            return None
+        q, qD, uni = cands[int(rng.integers(len(cands)))]
+        return dict(qD=qD, qL=int(q), complete=True, uniform=bool(uni))
+    qL = int(secs[int(rng.integers(len(secs)))])
+    Ds = small_profile(rng, L, d, Dmax, bstyle)
+    return dict(qD=state_charges(rng, qd, L, Ds, qL), qL=qL, complete=False, uniform=False)
